@@ -129,3 +129,20 @@ class C18rc(RegConcCheck):
     pid = "C18"
     profile = "mutators"
     n_quick, n_thorough = 200, 3000
+
+
+class C05rc(RegConcCheck):
+    """concurrent part of C05: several threads unregister the same registration"""
+    pid = "C05"
+    prop_module = "SigHook.Props.C05"
+    profile = "unregrace"
+    n_quick, n_thorough = 250, 3000
+
+
+class C01rc(RegConcCheck):
+    """registry level of C01: actions (not just snapshots) are released once, by the remover,
+    outside handlers, never while a delivery has them pinned, and do not run after removal returned"""
+    pid = "C01"
+    prop_module = "SigHook.Props.C01"
+    profile = "mixed"
+    n_quick, n_thorough = 200, 3000
